@@ -12,6 +12,7 @@ import (
 	"path/filepath"
 	"runtime/debug"
 	"sort"
+	"strings"
 	"strconv"
 	"sync"
 	"testing"
@@ -320,10 +321,23 @@ func Safe(f func()) (panicked bool, msg string) {
 }
 
 func trimStack(b []byte) string {
-	if len(b) > 3000 {
-		b = b[:3000]
+	// drop the frames of debug.Stack, the recover closure and panic itself
+	s := string(b)
+	if i := strings.Index(s, "\npanic("); i >= 0 {
+		rest := s[i+1:]
+		// skip the two lines of the panic frame
+		for k := 0; k < 2; k++ {
+			if j := strings.IndexByte(rest, '\n'); j >= 0 {
+				rest = rest[j+1:]
+			}
+		}
+		s = rest
 	}
-	return string(b)
+	lines := strings.Split(s, "\n")
+	if len(lines) > 12 {
+		lines = lines[:12]
+	}
+	return strings.Join(lines, "\n")
 }
 
 // LoadReplay reads a replay file into v.
